@@ -11,7 +11,7 @@ if str(REPO) not in sys.path:
     sys.path.insert(0, str(REPO))
 
 
-def count_calls(src: str, mode: str = "exec", variant: str = "shipped"):
+def count_calls(src: str, mode: str = "exec", variant: str = "shipped", verbose: bool = False):
     from harness import impl
     from peg_parser.tokenize import TokenError, generate_tokens
     from peg_parser.tokenizer import Tokenizer
@@ -36,10 +36,13 @@ def count_calls(src: str, mode: str = "exec", variant: str = "shipped"):
     Counting.calls = 0
     cls = impl.parser_cls(variant)
     tz = Counting(generate_tokens(io.StringIO(src).readline))
-    p = cls(tz)
+    p = cls(tz, verbose=verbose)
     outcome = "tree"
     try:
-        p.parse("file" if mode == "exec" else "eval")
+        import contextlib
+
+        with contextlib.redirect_stdout(io.StringIO()):
+            p.parse("file" if mode == "exec" else "eval")
     except SyntaxError:
         outcome = "err"
     except TokenError:
@@ -113,6 +116,8 @@ KNOWN = {
 
 
 def sizes_for(name, tier):
+    if name.endswith("+verbose"):
+        name = name[: -len("+verbose")]
     if name.startswith("invalid-subproc-mismatch"):
         return [10, 20, 40] if tier == "quick" else [10, 20, 40, 80]
     if name in DEEP:
@@ -123,10 +128,11 @@ def sizes_for(name, tier):
 
 
 def measure(name, sizes, variant="shipped"):
-    fam = FAMILIES[name]
+    verbose = name.endswith("+verbose")
+    fam = FAMILIES[name[: -len("+verbose")] if verbose else name]
     pts = []
     for n in sizes:
-        o = count_calls(fam(n), "exec", variant)
+        o = count_calls(fam(n), "exec", variant, verbose)
         if o["k"] == "recursion":
             break
         pts.append((n, o["ntok"], o["calls"], o["k"]))
@@ -166,7 +172,9 @@ def run(rep, tier, pool, variants=("shipped",)):
         "reset calls); oracle: fitted growth exponent of calls vs tokens <= 1.25 and calls-per-token not growing by more than 60% across sizes; "
         "non-trivial = every family; distinct by (family, size)"
     )
-    names = sorted(FAMILIES)
+    # the tracing path of the memoisation wrappers must not cost more than the fast path: deep families once more under verbose
+    VERBOSE_FAMILIES = ["nested-blocks", "nested-parens", "nested-calls", "nested-group-patterns", "nested-sequence-patterns", "invalid-nested-blocks", "invalid-unclosed-parens", "nested-subprocs", "nested-lists", "nested-ifexp"]
+    names = sorted(FAMILIES) + [f + "+verbose" for f in VERBOSE_FAMILIES if f in FAMILIES]
     for variant in variants:
         res = pool.call("harness.props.c18:measure", [(n, sizes_for(n, tier), variant) for n in names], timeout=(150 if tier == "quick" else 900))
         for name, o in zip(names, res):
@@ -189,7 +197,7 @@ def run(rep, tier, pool, variants=("shipped",)):
                 if fid:
                     rep.known(fid, f"{name}: exponent {v['exponent']} calls/token {v['calls_per_token']}")
                     continue
-                rep.violation(f"C18 super-linear work on family {name}: exponent {v['exponent']}, calls/token {v['calls_per_token']}", {"property": "C18", "family": name, "points_n_tokens_calls_outcome": pts, "verdict": v, "input_example": FAMILIES[name](pts[0][0]), "generator": "harness/props/c18.py:FAMILIES['%s']" % name, "variant": variant})
+                rep.violation(f"C18 super-linear work on family {name}: exponent {v['exponent']}, calls/token {v['calls_per_token']}", {"property": "C18", "family": name, "points_n_tokens_calls_outcome": pts, "verdict": v, "input_example": FAMILIES[name.replace("+verbose", "")](pts[0][0]), "generator": "harness/props/c18.py:FAMILIES['%s']%s" % (name.replace("+verbose", ""), " with verbose=True" if name.endswith("+verbose") else ""), "variant": variant})
 
 
 def classify(name, v):
